@@ -77,7 +77,7 @@ def allSafe : Option (List (String × Stmt)) → Bool
 skeletons regenerated from the working tree; an unchecked assertion, an unguarded
 `Current()` dereference, an index / slice / `make` / `Must…` the translator does not
 recognise as safe, makes this false. -/
-theorem C09_all_safe : allSafe XmppModel.Generated.C09.skeletons = true := by decide
+theorem C09_all_safe : allSafe XmppModel.Generated.C09.skeletons = true := by decide +kernel
 
 theorem allSafe_some {o : Option (List (String × Stmt))} (h : allSafe o = true) :
     ∃ l, o = some l ∧ ∀ p ∈ l, flagged p.2 = [] := by
@@ -109,7 +109,7 @@ theorem C09_scope_present :
       "xmpp.handleInputStream"].all fun n =>
         match XmppModel.Generated.C09.skeletons with
         | some l => l.any fun p => p.1 == n
-        | none => false) = true := by decide
+        | none => false) = true := by decide +kernel
 
 /-! ## Serve makes progress -/
 
